@@ -82,6 +82,29 @@ def fam_long(rng, n, tag="long", duration=45000, nodrain=0):
         out.append(s)
     return out
 
+def fam_checksum_reorder(rng, n, tag="csr", duration=16000):
+    """C18: desync detection with sparse saving (the two peers report checksums of different frames, so received
+    reports are not consumed by the comparison and the per-endpoint map of pending remote checksums sits at its
+    cap) on a network that reorders single packets all through the run: a stale report arriving at a full map
+    must not stop the trimming"""
+    out = []
+    for i in range(n):
+        n_peers = rng.choice([2, 2, 3])
+        s = Scen("%s_%d" % (tag, i), players=n_peers, window=rng.choice([8, 12]), lat=rng.choice([5, 30]),
+                 seed=rng.randrange(1 << 30), sparse=1, pred=rng.choice(["repeat", "default"]),
+                 inputrun=rng.choice([2, 7]), desync=rng.choice([1, 1, 2]), expect=["nodisconnect"])
+        _topology(rng, s, n_peers, n_peers, delays=(0, 1, 3))
+        ids = list(range(1, n_peers + 1))
+        for a in ids:
+            for b in ids:
+                if a != b:
+                    faults = sorted(set((rng.randrange(100, 3000), "delay", rng.choice([70, 250, 500, 900])) for _ in range(rng.randrange(20, 60))))
+                    s.link(a, b, faults=faults)
+        for p in ids:
+            s.ticks(p, rng.randrange(0, 16), duration, 16)
+        out.append(s)
+    return out
+
 def fam_starve(rng, n, tag="starve"):
     """one peer receives nothing from another for a long time (timeout raised so that nobody is
     disconnected); windows 0..=12"""
@@ -341,6 +364,38 @@ def fam_late_packet(rng, n, tag="late"):
         for tp in range(t_late + 64, t_late + 400, 16):
             s.at(tp, "poll", 3)
         s.at(t_disc, "disc", 1, 2)
+        out.append(s)
+    return out
+
+def fam_two_drops_gossip(rng, n, tag="tdg", expect=("repeat",)):
+    """four peers; peer 2 stops simulating (it only polls, so the others hold the same inputs of it) and is dropped
+    by all three with disconnect_player; later peer 4 stops the same way and only peer 3 drops it: peer 1 has one
+    endpoint that is no longer running and learns of the second drop from the connection status on peer 3's input
+    packets - what it does with that must not depend on where the dead endpoint sits in its endpoint map"""
+    out = []
+    for i in range(n):
+        w = rng.choice([8, 12])
+        lat = rng.choice([5, 10, 20])
+        s = Scen("%s_%d" % (tag, i), players=4, window=w, lat=lat, seed=rng.randrange(1 << 30),
+                 sparse=rng.randrange(2), pred=rng.choice(["repeat", "default"]), inputrun=rng.choice([1, 3]),
+                 timeout=20000, notify=8000, expect=list(expect))
+        _topology(rng, s, 4, 4, delays=(0, 0, 1))
+        t_stop1 = 12 * lat + rng.randrange(600, 1200)
+        t_disc1 = t_stop1 + 3 * lat + rng.choice([30, 50, 70])
+        t_stop2 = t_disc1 + rng.randrange(300, 900)
+        t_disc2 = t_stop2 + 3 * lat + rng.choice([30, 50, 70])
+        end = t_disc2 + rng.choice([800, 1500])
+        for p in (1, 3):
+            s.ticks(p, rng.randrange(0, 16), end, 16)
+        s.ticks(2, rng.randrange(0, 16), t_stop1, 16)
+        s.ticks(4, rng.randrange(0, 16), t_stop2, 16)
+        for tp in range(t_stop1, end, 16):
+            s.at(tp, "poll", 2)
+        for tp in range(t_stop2, end, 16):
+            s.at(tp, "poll", 4)
+        for p in (1, 3, 4):
+            s.at(t_disc1, "disc", p, 1)
+        s.at(t_disc2, "disc", 3, 3)
         out.append(s)
     return out
 
